@@ -35,6 +35,7 @@ func c06One(c *Ctx, b *Batch, pkg string, cs respCase, respType string, ex *exec
 		c.Res.Add(proto.Finding{Kind: "violation", Class: class, What: what, Case: cs, Impl: impl})
 	}
 	r := b.Call(map[string]any{"cmd": "unmarshal", "pkg": pkg, "type": respType, "json": string(js)})
+	codecCompare(c, parseGoDecls(b.Pkgs[pkg].Src), cs, respType, string(js), r)
 	if _, ok := r["crash"]; ok {
 		return
 	}
